@@ -395,6 +395,36 @@ theorem parseUrl_partial (w : World) (fuel : Nat) (href : Url) (p : Parsed) (rd 
     simp only [Except.ok.injEq, Option.some.injEq] at h; subst h
     exact no_override_ladder w fuel (.text t) none (some href) q rfl hp
 
+/-- an override given to `parseUrl` governs the whole tree as well -/
+theorem parseUrl_override_propagates (w : World) (fuel : Nat) (href : Url) (e : Name) (p : Parsed) (he : e ≠ [])
+    (h : parseUrl w fuel href (some e) = .ok (some p)) :
+    (∀ x ∈ p.out.recs, x.found = true → x.enctype = 0 ∧ x.used = e ∧ (validName w e = true → x.reported = lower e)) ∧
+    (validName w e = true → p.encoding = lower e) := by
+  have hte : truthy (some e) = true := (truthy_some_iff e).mpr he
+  unfold parseUrl at h
+  cases hr : readUrl w (w.fetch href) (some e) none with
+  | error x => rw [hr] at h; cases h
+  | ok o =>
+    rw [hr] at h
+    cases o with
+    | none => simp at h
+    | some rd =>
+      obtain ⟨henc, hty⟩ := readUrl_override w _ _ _ rd hte hr
+      simp only [Option.getD_some] at henc
+      simp only at h
+      cases ht : rd.text with
+      | none => rw [ht] at h; simp at h
+      | some t =>
+        rw [ht] at h
+        simp only [hty, henc, show ((0 : Nat) = 5) = False from by simp, if_false] at h
+        cases hp : parseString w fuel (.text t) (some e) (some href) with
+        | error x => rw [hp] at h; simp at h
+        | ok q =>
+          rw [hp] at h
+          simp only [Except.ok.injEq, Option.some.injEq] at h
+          subst h
+          exact override_propagates w fuel (.text t) e (some href) q he hp
+
 /-! ## T8.3 `sheet.encoding` mirrors the `@charset` rule under edits -/
 open CssVerif.EncSheet in
 /-- T8.3 `encoding_mirrors_charset`: after ANY history of public edits (`encoding =`, `insertRule`/`add` of every
